@@ -66,6 +66,9 @@ utf8dec(uint_least32_t *c, const unsigned char *s, size_t n)
 	}
 	if (x >= 0x110000 || x - 0xd800 < 0x0200)
 		return -1;
+	/* overlong encoding */
+	if (x < (l == 2 ? 0x80 : l == 3 ? 0x800 : 0x10000))
+		return -1;
 	*c = x;
 	return l;
 }
